@@ -412,33 +412,86 @@ def _item_field(prog, name):
     return names.index(name)
 
 
+_CMP_RX = re.compile(r"PartialOrd(<.*>)?>::(lt|le|gt|ge)$")
+
+
+def order_facts(pa, lo=0, hi=None):
+    """the ordering decisions taken in pa.log[lo:hi]: [(A, B, truth)] meaning `A > B` is `truth`, from the branched-on results of
+    PartialOrd::{lt,le,gt,ge} calls (lt(a,b) = gt(b,a); le(a,b) = !gt(a,b); ge(a,b) = !gt(b,a))"""
+    hi = len(pa.log) if hi is None else hi
+    out = []
+    for i in range(lo, hi):
+        e = pa.log[i]
+        if e[0] != "call":
+            continue
+        m = _CMP_RX.search(e[1])
+        if not m or len(e[2]) < 2:
+            continue
+        v = next((x[2] for x in pa.log[i:hi] if x[0] == "choice" and x[1] == e[4]), None)
+        if v is None:
+            continue
+        a, b = (C.expr_of(pa, x, 0, i) for x in e[2][:2])
+        op = m.group(2)
+        if op == "gt":
+            out.append((a, b, bool(v)))
+        elif op == "lt":
+            out.append((b, a, bool(v)))
+        elif op == "le":
+            out.append((a, b, not v))
+        else:
+            out.append((b, a, not v))
+    return out
+
+
+ZERO_DURATIONS = [("Duration::from_secs", 0), ("Duration::from_millis", 0), ("Duration::from_micros", 0), ("Duration::from_nanos", 0),
+                  ("Duration::new", 0, 0), "top:const:std::time::Duration::ZERO", ("Duration::default",)]
+
+
+def _is_zero_duration(d):
+    return any(same(d, z) for z in ZERO_DURATIONS)
+
+
 def r11_2_payload(ctx, prog, rule="R11.2"):
     ctx.rule(rule, "StunMessageTimeout::next_timeout: None iff the heap is empty; otherwise the id is the peeked minimum's id "
-                   "and the duration is (item.instant + item.timeout) - instant on the partition where that sum > instant, "
-                   "zero otherwise")
+                   "and the duration is (item.instant + item.timeout) - instant where the ordering decisions of the path leave "
+                   "that difference possibly positive, zero only where they establish expiry <= instant")
     fi, ft, fid = (_item_field(prog, n) for n in ("instant", "timeout", "transaction_id"))
     paths, info = _paths(ctx, prog, TM + "::next_timeout", "t")
     peek = ("BinaryHeap::peek", "top:t.timeouts")
-    item = lambda k: (peek, ".0.*.0.%d" % k)
+    item = lambda k: (peek, ".some.*.0.%d" % k)
     expires = ("Instant::add", item(fi), item(ft))
+    diffs = [(f, expires, "top:instant") for f in ("Instant::sub", "Instant::duration_since", "Instant::saturating_duration_since")]
     n = 0
     for pa in paths:
         pk = pa.choice(r"^variant\(ret:peek@")
-        gt = pa.choice(r"^ret:gt@")
         r = _ret(pa)
         n += 1
         if pk == "None":
             ok = r == "Option::None"
             key = "empty"
         else:
-            g = pa.calls_to(r"Instant as std::cmp::PartialOrd>::gt$")
-            okg = len(g) == 1 and same(C.expr_of(pa, g[0][2]), (expires, "top:instant"))
-            if gt == 1:
-                exp = ("Option::Some", ("tuple", item(fid), ("Instant::sub", expires, "top:instant")))
+            facts = order_facts(pa)
+            # what the decisions say about `expires > instant`:  True / False (expires <= instant) / "ge" (expires >= instant) / "lt"
+            known = []
+            for (a, b, t) in facts:
+                if same(a, expires) and b == "top:instant":
+                    known.append("gt" if t else "le")
+                elif a == "top:instant" and same(b, expires):
+                    known.append("lt" if t else "ge")
+                else:
+                    known.append("other")
+            d = r[1][2] if isinstance(r, tuple) and r[0] == "Option::Some" and isinstance(r[1], tuple) and len(r[1]) == 3 and r[1][0] == "tuple" else None
+            okid = d is not None and same(r[1][1], item(fid))
+            if known in (["gt"], ["ge"]):
+                okd = any(same(d, x) for x in diffs)
+            elif known in (["le"], ["lt"]):
+                okd = _is_zero_duration(d) or same(d, diffs[2])
+            elif not known:
+                okd = same(d, diffs[2])          # no decision: only the saturating difference is right on both sides
             else:
-                exp = ("Option::Some", ("tuple", item(fid), ("Duration::from_secs", 0)))
-            ok = okg and same(r, exp)
-            key = "pending:later=%s" % gt
+                okd = False
+            ok = okid and okd
+            key = "pending:%s" % ",".join(known)
         ctx.ob(rule, key, ok, "-> %s" % show(r)[:260], info["where"], replay=None if ok else pa.describe())
     ctx.floor(rule, "next_timeout paths", n, 3)
 
@@ -480,30 +533,46 @@ def r11_4_pairing(ctx, prog, rule="R11.4"):
     fi, ft, fid = (_item_field(prog, n) for n in ("instant", "timeout", "transaction_id"))
     paths, info = _paths(ctx, prog, TM + "::check", "t")
     body = info["body"]
+    peek = ("BinaryHeap::peek", "top:t.timeouts")
+    item = lambda k: (peek, ".some.*.0.%d" % k)
+    expires = ("Instant::add", item(fi), item(ft))
     seen = {}
     for pa in paths:
-        segs = shared.segments(pa.log, body.path)
-        for seg in segs[1:]:
-            pk = shared.choice_in(seg, [e[1] for e in seg if e[0] == "choice" and str(e[1]).startswith("variant(ret:peek@")][0]) \
-                if [e for e in seg if e[0] == "choice" and str(e[1]).startswith("variant(ret:peek@")] else None
-            le = [e[2] for e in seg if e[0] == "choice" and str(e[1]).startswith("ret:le@")]
-            le = le[0] if le else None
+        heads = [i for i, e in enumerate(pa.log) if e[0] == "loop-head" and e[1] == body.path]
+        for k, h in enumerate(heads):
+            end = heads[k + 1] if k + 1 < len(heads) else len(pa.log)
+            seg = pa.log[h + 1:end]
+            pkc = [e for e in seg if e[0] == "choice" and str(e[1]).startswith("variant(ret:peek@")]
+            pk = pkc[0][2] if pkc else None
+            # the due test: exactly one ordering decision, about (expiry, instant), deciding `expiry > instant` both ways
+            facts = order_facts(pa, h + 1, end)
+            due = None
+            bad = None
+            pcs = [i for i in range(h + 1, end) if pa.log[i][0] == "call" and re.search(r"BinaryHeap::<.*>::peek$", pa.log[i][1])]
+            if len(pcs) != 1 or pa.log[pcs[0]][3] != ("t", "timeouts"):
+                bad = "%d peek calls on the heap in one iteration" % len(pcs)
+            else:
+                peek = C.expr_of(pa, "top:" + pa.log[pcs[0]][4], 0, pcs[0] + 1)      # the heap as it is in this iteration
+                expires = ("Instant::add", item(fi), item(ft))
+            for (a, b, t) in facts:
+                if same(a, expires) and b == "top:instant" and due is None:
+                    due = 0 if t else 1
+                else:
+                    bad = "ordering decision on %s > %s" % (show(a)[:60], show(b)[:40])
             pushes = [e for e in seg if e[0] == "call" and re.search(r"Vec::<.*>::push$", e[1])]
             pops = [e for e in seg if e[0] == "call" and re.search(r"BinaryHeap::<.*>::pop$", e[1])]
-            key = "iteration:peek=%s,due=%s" % (pk, le)
-            if pk == "Some" and le == 1:
+            key = "iteration:peek=%s,due=%s" % (pk, due)
+            if bad is not None:
+                ok = False
+                why = bad
+            elif pk == "Some" and due == 1:
                 ok = len(pushes) == 1 and len(pops) == 1 and pops[0][3] == ("t", "timeouts")
                 if ok:
-                    a = C.expr_of(pa, pushes[0][2][1])
-                    ok = isinstance(a, tuple) and a[1].endswith(".%d" % fid) and "peek" in repr(a[0])
-                lc = [e for e in seg if e[0] == "call" and re.search(r"PartialOrd>::le$", e[1])]
-                if ok:
-                    t = C.expr_of(pa, lc[0][2])
-                    ok = isinstance(t[0], tuple) and t[0][0] == "Instant::add" and t[1] == "top:instant" \
-                        and {t[0][1][1][-2:], t[0][2][1][-2:]} == {".%d" % fi, ".%d" % ft}
+                    a = C.expr_of(pa, pushes[0][2][1], 0, pa.log.index(pushes[0]))
+                    ok = same(a, item(fid))
                 why = "due entry: %d push, %d pop" % (len(pushes), len(pops))
             else:
-                ok = not pushes and not pops
+                ok = not pushes and not pops and (pk != "Some" or due == 0)
                 why = "no due entry: %d push, %d pop" % (len(pushes), len(pops))
             if key not in seen or not ok:
                 seen[key] = (ok, why)
@@ -524,10 +593,17 @@ def r11_4_pairing(ctx, prog, rule="R11.4"):
         ctx.anchor_missing(rule, "closure of StunMessageTimeout::remove")
     else:
         paths, info = C.explore_fn(prog, cl[0].path, "t", [])
+        # the closure's element parameter (named or destructured) is its 2nd argument; the captured id its environment
+        pname = cl[0].debug_name(2) or "arg2"
+        is_elem = lambda x: isinstance(x, str) and re.match(r"^top:(%s|arg2)\.0\.%d(\.\*)?$" % (re.escape(pname), fid), x) is not None
+        is_capt = lambda x: isinstance(x, str) and re.match(r"^top:arg1\.0(\.\*)*$", x) is not None
         for pa in paths:
             r = _ret(pa)
-            ok = isinstance(r, tuple) and r[0].endswith("ne") and r[1].endswith(".0.%d" % fid) and "item" in r[1] and "arg1" in repr(r[2]) is not None
-            ok = ok or (isinstance(r, tuple) and r[0].endswith("ne") and ("item" in repr(r[1])) and str(fid) in repr(r[1]))
+            ok = False
+            if isinstance(r, tuple) and len(r) == 3 and r[0].endswith("ne"):
+                ok = (is_elem(r[1]) and is_capt(r[2])) or (is_elem(r[2]) and is_capt(r[1]))
+            elif isinstance(r, tuple) and len(r) == 2 and r[0] == "op:Not" and isinstance(r[1], tuple) and len(r[1]) == 3 and r[1][0].endswith("eq"):
+                ok = (is_elem(r[1][1]) and is_capt(r[1][2])) or (is_elem(r[1][2]) and is_capt(r[1][1]))
             ctx.ob(rule, "remove-closure", ok, "retain predicate = %s" % show(r), cl[0].where())
 
 
@@ -913,7 +989,16 @@ def r4_7_input_text(ctx, prog, rule="R4.7"):
                 bad.append("Ok returned without a matching attribute")
             cb = [C.expr_of(pa, e[2]) for e in pa.calls if re.search(r"check_buffer_boundaries$", e[1])]
             tv = [C.expr_of(pa, e[2]) for e in pa.calls if re.search(r"slice::<impl \[.*\]>::to_vec$", e[1])]
+            # the length patch, in either spelling: BigEndian::write_u16(&mut out[2..4], v) / out[2..4].copy_from_slice(&v.to_be_bytes())
             wr = [C.expr_of(pa, e[2]) for e in pa.calls if re.search(r"ByteOrder>::write_u16$", e[1])]
+            for e in pa.calls:
+                if re.search(r"copy_from_slice$", e[1]):
+                    a = C.expr_of(pa, e[2])
+                    src = a[1]
+                    while isinstance(src, tuple) and len(src) == 2 and isinstance(src[1], str) and src[1].startswith("."):
+                        src = src[0]
+                    if isinstance(src, tuple) and src and src[0] == "u16::to_be_bytes":
+                        wr.append((a[0], src[1]))
             okp = len(cb) == 1 and cb[0][0] == "top:buffer" and (cb[0][1] == 20 or (isinstance(cb[0][1], tuple) and cb[0][1][0] == "op:Add" and 20 in cb[0][1][1:]))
             okv = len(tv) == 1 and isinstance(tv[0][0], tuple) and "top:buffer" in repr(tv[0][0]) and repr(("RangeTo", cb[0][1] if cb else None)) in repr(tv[0][0])
             okw = len(wr) == 1 and repr(("Range", 2, 4)) in repr(wr[0][0]) and "pos" in repr(wr[0][1])
@@ -929,16 +1014,67 @@ def r4_7_input_text(ctx, prog, rule="R4.7"):
         ctx.anchor_missing(rule, "get_input_text: exactly one RawAttributesIter::next call (%d)" % len(heads))
         return
     head = heads[0]
-    names = {}
-    for l in range(len(body.locals)):
-        nme = body.debug_name(l)
-        if nme in ("pos", "len"):
-            names.setdefault(nme, []).append(l)
-    pos_l = names.get("pos", [])
-    len_l = [l for l in names.get("len", []) if "Option" in body.tystr(body.locals[l]["ty"])]
-    if len(pos_l) != 1 or len(len_l) != 1:
-        ctx.anchor_missing(rule, "get_input_text: locals pos / len (found %s / %s)" % (pos_l, len_l))
+    # the two quantities, found by dataflow rather than by name: the prefix end is what flows into the bound of
+    # check_buffer_boundaries(buffer, _), the patched length is what flows into Option::ok_or_else(_)
+    def operand_locals(x):
+        out = set()
+        if isinstance(x, dict):
+            if "place" in x and isinstance(x["place"], dict) and "l" in x["place"]:
+                out.add(x["place"]["l"])
+            for k, v in x.items():
+                if k != "place":
+                    out |= operand_locals(v)
+        elif isinstance(x, list):
+            for v in x:
+                out |= operand_locals(v)
+        return out
+
+    def reads_iter_pos(rv):
+        """does the rvalue read a field named `pos` (of the attribute iterator)?"""
+        def walk(x):
+            if isinstance(x, dict):
+                pl = x.get("place")
+                if isinstance(pl, dict) and any(pe.get("k") == "field" and pe.get("name") == "pos" for pe in pl.get("p", [])):
+                    return True
+                return any(walk(v) for v in x.values())
+            if isinstance(x, list):
+                return any(walk(v) for v in x)
+            return False
+        return walk(rv)
+
+    def back_slice(seeds):
+        """flow-insensitive backward slice over whole-local assignments: -> (locals, {block: statement} reading iter.pos)"""
+        locs = set(seeds)
+        src = set()
+        changed = True
+        while changed:
+            changed = False
+            for b2, blk in enumerate(body.blocks):
+                if blk["cleanup"]:
+                    continue
+                for st in blk["stmts"]:
+                    if st["k"] == "assign" and st["place"]["l"] in locs:
+                        if reads_iter_pos(st["rv"]):
+                            src.add(b2)
+                        new = operand_locals(st["rv"]) - locs
+                        if new:
+                            locs |= new
+                            changed = True
+                t = blk["term"]
+                if t["k"] == "call" and t.get("dest") and t["dest"]["l"] in locs and \
+                        re.search(r"::(into|from|try_into|try_from|clone|unwrap_or|unwrap_or_default)$", (t["func"].get("fn") or {}).get("full", "")):
+                    new = operand_locals(t["args"]) - locs
+                    if new:
+                        locs |= new
+                        changed = True
+        return locs, src
+    cbb = [c for c in body.calls() if re.search(r"check_buffer_boundaries$", c.callee_path)]
+    oks = [c for c in body.calls() if re.search(r"Option::<.*>::(ok_or_else|ok_or)", c.callee_path)]
+    if len(cbb) != 1 or len(oks) != 1:
+        ctx.anchor_missing(rule, "get_input_text: one check_buffer_boundaries and one Option::ok_or(_else) call (%d / %d)" % (len(cbb), len(oks)))
         return
+    _pl, pos_src = back_slice(operand_locals(cbb[0].term["args"][1:2]))
+    _ll, len_src = back_slice(operand_locals(oks[0].term["args"][0:1]))
     # the switch that compares attr_type with raw_attr.attr_type: a switch inside the loop on an Eq of two u16
     sw = None
     for bi, blk in enumerate(body.blocks):
@@ -946,36 +1082,29 @@ def r4_7_input_text(ctx, prog, rule="R4.7"):
         if t["k"] != "switch" or blk["cleanup"]:
             continue
         for st in blk["stmts"]:
-            if st["k"] == "assign" and st["rv"]["k"] == "binop" and st["rv"]["op"] == "Eq" and \
-                    t["discr"]["k"] in ("copy", "move") and t["discr"]["place"]["l"] == st["place"]["l"]:
-                sw = (bi, t)
+            if st["k"] == "assign" and st["rv"]["k"] == "binop" and st["rv"]["op"] in ("Eq", "Ne") and \
+                    t["discr"]["k"] in ("copy", "move") and t["discr"]["place"]["l"] == st["place"]["l"] and bi in cfg.reachable(head):
+                sw = (bi, t, st["rv"]["op"])
     if sw is None:
         ctx.anchor_missing(rule, "get_input_text: the attribute type comparison")
         return
-    bi, t = sw
+    bi, t, cmp_op = sw
     false_t = [tg for v, tg in t["targets"] if int(v) == 0]
     true_t = t["otherwise"] if false_t else None
     if not false_t:
         ctx.anchor_missing(rule, "get_input_text: comparison edges")
         return
     false_t = false_t[0]
+    if cmp_op == "Ne":
+        true_t, false_t = false_t, true_t          # `true` below means: the types are equal
     on_true = cfg.reachable(true_t, cut_blocks=[head])
     on_false = cfg.reachable(false_t, cut_blocks=[head])
 
-    def assigns(local):
-        out = set()
-        for b2, blk in enumerate(body.blocks):
-            if blk["cleanup"]:
-                continue
-            for st in blk["stmts"]:
-                if st["k"] == "assign" and st["place"]["l"] == local and not st["place"]["p"]:
-                    out.add(b2)
-        return out
     after_cmp = on_true | on_false          # the rest of an iteration (and, for an edge that leaves the loop, what follows)
-    a_pos = assigns(pos_l[0]) & after_cmp
-    a_len = assigns(len_l[0]) & after_cmp
-    ok1 = bool(a_len) and a_len <= on_true and not (a_len & on_false)
-    ok2 = bool(a_pos) and a_pos <= on_false and not (a_pos & on_true)
+    a_pos = pos_src & after_cmp
+    a_len = len_src & after_cmp
+    ok1 = bool(a_len) and a_len <= on_true and not (a_len & on_false) and len_src <= after_cmp
+    ok2 = bool(a_pos) and a_pos <= on_false and not (a_pos & on_true) and pos_src <= after_cmp
     # after a match the loop head is not reached again
     ok3 = head not in cfg.reachable(true_t)
     ctx.ob(rule, "input-text:loop-structure", ok1 and ok2 and ok3,
